@@ -53,10 +53,10 @@ CtmU(m) == <<m[1], m[2], m[3], m[4], m[5] * U, m[6] * U>>
 FontMB(f) == f = "F2"
 \* F1: /FirstChar 32 /LastChar 67 /Widths with A 500, B 1000, space 250 and an explicit 0 for every other code of the
 \*     table (C = 67 among them); /MissingWidth 300 for codes outside the table (D = 68)
-\* F2: /DW 1000 and /W [32 [0]] - an explicit zero next to a non-zero default
+\* F2: /DW 1000 and /W [32 [0] 65 65 300] - an explicit zero next to a non-zero default, and a range of ONE CID
 \* F1b: what the NAME F1 means inside a form whose own /Resources define it differently - a direct font dictionary with the
 \*      same /BaseFont as F1 and other widths (A 600, B 900)
-FontW(f, cid) == IF f = "F2" THEN (IF cid = 32 THEN 0 ELSE 1000)
+FontW(f, cid) == IF f = "F2" THEN (IF cid = 32 THEN 0 ELSE IF cid = 65 THEN 300 ELSE 1000)
                  ELSE IF f = "F1b" THEN CASE cid = 65 -> 600 [] cid = 66 -> 900 [] cid = 32 -> 250
                                           [] cid \in 32..67 -> 0 [] OTHER -> 300
                  ELSE CASE cid = 65 -> 500 [] cid = 66 -> 1000 [] cid = 32 -> 250
